@@ -263,7 +263,8 @@ def load_hdf5(path, meta_only=False):
                     parms.loads(val)
                     val = parms
                 elif key == "preprocessing":
-                    val = val.split(",")
+                    # ("".split(",") is [""], not the empty list)
+                    val = val.split(",") if val else []
                 elif key in ["preprocessing_options", "method_kws"]:
                     val = json.loads(val)
                 elif key == "range_x":
